@@ -335,7 +335,7 @@ func (P *Program) resolveModifies(fn *ssa.Function, con *Contract) error {
 			}
 			ks := vc.sortOf(m.Key())
 			vs := vc.sortOf(m.Elem())
-			n := sortSym(ks) + "_" + sortSym(vs)
+			n := mapTypeSym(mt)
 			mc.heaps = append(mc.heaps, "MapDom_"+n, "MapVal_"+n)
 			mc.sorts = append(mc.sorts, ArraySort(SInt, ArraySort(ks, SBool)), ArraySort(SInt, ArraySort(ks, vs)))
 			mc.at = x.Args[0]
